@@ -124,28 +124,39 @@ Theorem ffi_agrees_karmarkar_karp_complete : forall rust p0 ws tol s rest W,
 Proof. exact agrees_ckk. Qed.
 Print Assumptions ffi_agrees_karmarkar_karp_complete.
 
-(* rcb, rib: LEN_MISMATCH first, then dimension 2/3 -> the algorithm, any other -> BAD_DIMENSION.
-   [checks_points e] is computed from the generated table: does the entry point answer BAD_TYPE (right after the
-   length check) for points announced with another Type tag than double?  It does not at present — the tag of
-   the points is never read (finding candidate, docs/C17.md) — and the statements hold for either shape. *)
+(* the three geometric entry points answer BAD_TYPE for points announced with another Type tag than double
+   (fix eb2545c; before it the tag of the points was never read) — read off the generated table — and the
+   pre-fix shape of the glue is not the current one *)
+Theorem ffi_points_type_checked :
+  checks_points ffi_rcb = true /\ checks_points ffi_rib = true /\ checks_points ffi_hilbert = true.
+Proof. exact points_type_checked. Qed.
+Print Assumptions ffi_points_type_checked.
+Theorem ffi_points_tag_ignored_refuted :
+  ffi_rcb <> geo_entry false "Rcb" /\ ffi_rib <> geo_entry false "Rib" /\ ffi_hilbert <> hilbert_entry false.
+Proof. exact old_shape_refuted. Qed.
+Print Assumptions ffi_points_tag_ignored_refuted.
+
+(* rcb, rib ([geo_expected true]): LEN_MISMATCH first, then BAD_TYPE unless the points are announced as double,
+   then dimension 2/3 -> the algorithm, any other -> BAD_DIMENSION *)
 Theorem ffi_agrees_rcb : forall rust p0 dim pts ws iter tol s rest,
   take_slice (dlen pts) p0 = Some (s, rest) ->
-  coupe_rcb rust p0 dim pts ws iter tol = geo_expected (checks_points ffi_rcb) rust p0 dim pts ws iter tol s rest.
+  coupe_rcb rust p0 dim pts ws iter tol = geo_expected true rust p0 dim pts ws iter tol s rest.
 Proof. exact agrees_rcb. Qed.
 Print Assumptions ffi_agrees_rcb.
 
 Theorem ffi_agrees_rib : forall rust p0 dim pts ws iter tol s rest,
   take_slice (dlen pts) p0 = Some (s, rest) ->
-  coupe_rib rust p0 dim pts ws iter tol = geo_expected (checks_points ffi_rib) rust p0 dim pts ws iter tol s rest.
+  coupe_rib rust p0 dim pts ws iter tol = geo_expected true rust p0 dim pts ws iter tol s rest.
 Proof. exact agrees_rib. Qed.
 Print Assumptions ffi_agrees_rib.
 
-(* hilbert: LEN_MISMATCH, then BAD_TYPE unless the weights are tagged double, then 2-D points and f64
+(* hilbert ([hilbert_expected true]): LEN_MISMATCH, then BAD_TYPE unless the points are announced as double, then
+   BAD_TYPE unless the weights are tagged double, then 2-D points and f64
    weights; every error of the algorithm becomes NOT_FOUND *)
 Theorem ffi_agrees_hilbert : forall rust p0 pts ws part_count order s rest,
   take_slice (dlen pts) p0 = Some (s, rest) ->
   coupe_hilbert rust p0 pts ws part_count order
-  = hilbert_expected (checks_points ffi_hilbert) rust p0 pts ws part_count order s rest.
+  = hilbert_expected true rust p0 pts ws part_count order s rest.
 Proof. exact agrees_hilbert. Qed.
 Print Assumptions ffi_agrees_hilbert.
 
